@@ -88,7 +88,6 @@ int BitEntry::SetNumBits(const char *num_bits)
   int r = 0;
 
   SetScalar(1, num_bits);
-    E.scalar[1] = strdup(num_bits);
 
   if (D != NULL) {
     r = gd_alter_entry(D->D, E.field, &E, 0);
